@@ -30,19 +30,23 @@ type pathRun struct {
 	failAt  int // step index of the first violation, -1 if none
 	final   string
 	err     string
+	hash    uint64
 }
 
 // runPath executes the path on fresh nodes, one event after the other.
 func runPath(cfg *Cfg, bud *Budget, fifo bool, path []Event) pathRun {
 	r := pathRun{failAt: -1}
-	c := newCluster(cfg, bud, fifo)
+	// no memo: every input goes to the one RawNode of its member, created at boot
+	c := newCluster(newSim(false), cfg, bud, fifo)
 	for i, e := range path {
 		desc := c.describe(e)
-		if !c.apply(e) {
+		d := c.step(e)
+		if d == nil {
 			r.err = fmt.Sprintf("step %d: %s is not enabled", i, desc)
 			r.lines = append(r.lines, fmt.Sprintf("%2d  %s   !! not enabled", i+1, desc))
 			break
 		}
+		c = d
 		r.lines = append(r.lines, fmt.Sprintf("%2d  %s", i+1, desc))
 		if len(c.viol) > 0 {
 			r.failAt = i
@@ -54,6 +58,7 @@ func runPath(cfg *Cfg, bud *Budget, fifo bool, path []Event) pathRun {
 		}
 	}
 	r.final = c.summary()
+	r.hash, _ = c.key()
 	return r
 }
 
